@@ -1,103 +1,8 @@
-(* C07 -- cluster model, world WITHOUT rollback of the counter: the local step condition [xgood] (what a
-   step of one node may claim, that it loses nothing, that its own numbers increase, that
-   nextSequenceGreaterThan releases what it skips) and its proof for every op except XRollback.
-   Same structure as AllocatorInv.v; the event-level notions (excl, hsorted, covered, nonempty) are
-   reused from there. *)
+(* C07 -- cluster model, world without rollback: every op except XRollback meets the local step condition
+   [xgood] of ClusterDefs.v. *)
 From SG Require Import Base.Prelude C07.Allocator C07.AllocatorInv C07.Cluster.
+From SG Require Export C07.ClusterDefs.
 Open Scope N_scope.
-
-Definition heldN (a : node) (s : N) : Prop := n_last a < s /\ s <= n_max a.
-
-(* s lies in a range released by one of the events *)
-Fixpoint rcov (ev : list event) (s : N) : Prop :=
-  match ev with
-  | [] => False
-  | ERange lo hi :: r => (lo <= s /\ s <= hi) \/ rcov r s
-  | _ :: r => rcov r s
-  end.
-
-Lemma rcov_iff ev s : rcov ev s <-> exists lo hi, In (ERange lo hi) ev /\ lo <= s /\ s <= hi.
-Proof.
-  induction ev as [|e r IH]; cbn [rcov In].
-  - split; [tauto | intros (lo & hi & [] & _)].
-  - destruct e; rewrite ?IH;
-      try (split; [intros (lo' & hi' & Hi & Hc); exists lo', hi'; auto
-                  | intros (lo' & hi' & [Hd | Hi] & Hc); [discriminate | exists lo', hi'; auto]]).
-    split.
-    + intros [Hc | (lo' & hi' & Hi & Hc)]; [exists lo, hi; auto | exists lo', hi'; auto].
-    + intros (lo' & hi' & [Hd | Hi] & Hc); [inv Hd; left; exact Hc | right; exists lo', hi'; auto].
-Qed.
-
-(* no event of the list disposes of a number *)
-Definition silent (ev : list event) : Prop :=
-  Forall (fun e => match e with EHand _ _ _ | ERange _ _ | EOne _ => False | _ => True end) ev.
-
-(* well-formedness of one node against the counter, in the world without rollback: the window is below
-   the counter, and the program points of _fixSyncSeqRollback are not reached *)
-Definition wfN (c : N) (a : node) : Prop :=
-  n_last a <= n_max a /\ n_max a <= c /\ 1 <= n_batch a /\ n_batch a <= 10 /\
-  match n_pc a with
-  | PIdle => True
-  | PGt x r => n_last a = n_max a /\ n_max a <= r /\ r <= c /\ n_max a < target_of x /\ n_stopped a = false
-  | _ => False
-  end /\
-  (if n_stopped a then n_last a = n_max a /\ n_pc a = PIdle else True).
-
-Lemma wfN_mono c c' a : c <= c' -> wfN c a -> wfN c' a.
-Proof.
-  unfold wfN. intros Hc (H1 & H2 & H3 & H4 & H5 & H6).
-  repeat split; try lia; auto. destruct (n_pc a); auto. intuition lia.
-Qed.
-
-Definition xgood (c : N) (a : node) (i : N) (c' : N) (a' : node) (ev : list event) : Prop :=
-  c <= c' /\
-  wfN c' a' /\
-  (* whatever is claimed or newly held comes from the own window or from the fresh part of the counter *)
-  Forall (fun e => forall s, covers e s -> heldN a s \/ (c < s /\ s <= c')) ev /\
-  (forall s, heldN a' s -> heldN a s \/ (c < s /\ s <= c')) /\
-  (* claims are exclusive among themselves and with what is still held *)
-  excl ev /\
-  Forall (fun e => forall s, covers e s -> ~ heldN a' s) ev /\
-  (* nothing is lost *)
-  (forall s, heldN a s \/ (c < s /\ s <= c') -> covered ev s \/ heldN a' s) /\
-  (* per-node monotonicity *)
-  n_last a <= n_last a' /\
-  Forall (fun e => match e with EHand j s _ => j = i /\ n_last a < s /\ s <= n_last a' | _ => True end) ev /\
-  hsorted ev /\
-  (* nextSequenceGreaterThan returns a number above its floor and releases, in the same step, every number
-     below the result that the node held or that the step reserved *)
-  Forall (fun e => match e with EHand _ s (Some x) => x < maxU64 -> x < s | _ => True end) ev /\
-  Forall (fun e => match e with
-                   | EHand _ s (Some _) => forall n, n < s -> heldN a n \/ (c < n /\ n <= c') -> rcov ev n
-                   | _ => True end) ev /\
-  (* a single-number release is for a number handed out in the same step *)
-  incl (singles ev) (handed ev) /\ NoDup (singles ev) /\
-  (* stopped and crashed nodes *)
-  (n_stopped a = true -> n_stopped a' = true) /\
-  (n_stopped a = true -> ev = [ESkip i] \/ handed ev = []) /\
-  (n_crashed a = true -> n_crashed a' = true /\ n_last a' = n_last a /\ n_max a' = n_max a /\ silent ev) /\
-  (* published ranges are never empty *)
-  Forall nonempty ev.
-
-Ltac xproj_red H :=
-  cbv beta iota zeta delta [n_last n_max n_batch n_once n_pc n_stopped n_crashed fst snd set_pc set_nstopped
-                             set_ncrashed set_nbatch pc_idle dead xbusy orb andb negb hand_events] in H.
-Ltac xproj_goal :=
-  cbv beta iota zeta delta [n_last n_max n_batch n_once n_pc n_stopped n_crashed fst snd
-                             heldN wfN covers covered excl hsorted hand_lt nonempty handed singles flat_map app
-                             incl rcov silent].
-
-Ltac xfinish_good :=
-  unfold xgood; xproj_goal;
-  repeat match goal with |- _ /\ _ => split end;
-  forall_list; xproj_goal;
-  unfold target_of, maxU64 in *; intros; break_ifs;
-  try solve [ intros; lia
-            | intros; intuition lia
-            | intros; try discriminate; intuition (try discriminate; try lia)
-            | constructor
-            | repeat constructor; cbn; intuition (try discriminate; try lia)
-            | intros ? HH; cbn in HH; intuition (subst; cbn; auto) ].
 
 Lemma xstep_node_good c a o c' a' ev :
   wfN c a -> is_rollback o = false -> xstep_node c a o = (c', a', ev) -> xgood c a (xactor o) c' a' ev.
